@@ -8,7 +8,7 @@ import (
 	be "github.com/echoface/be_indexer"
 )
 
-const c07Rule = "sequential part: document sets over default, pattern and range fields on k-groups and compact indexes, every query answered once and compared with model and specification in Coq (these are the sequential reference answers); concurrent part (harness built with -race): the same indexes plus a roaring index are shared by G in {2,4,16} goroutines (one roaring scanner per goroutine), each issuing random queries through Retrieve and through RetrieveWithCollector with its own recording collector for the tier's duration; every concurrent answer is compared with the sequential one and any race-detector report is a violation. Non-trivial = some query returns a non-empty proper subset; distinct = distinct input"
+const c07Rule = "sequential part: document sets over default, pattern and range fields on k-groups and compact indexes, every query answered once and compared with model and specification in Coq (these are the sequential reference answers); concurrent part (harness built with -race): the same indexes plus a roaring index are shared by G in {2,4,16} goroutines (one roaring scanner per goroutine), each issuing random queries through Retrieve and through RetrieveWithCollector with its own recording collector for the tier's duration, about 4% of them failing retrievals (a value no parser supports on a known field; 40 more before the concurrent phase); every concurrent answer is compared with the sequential one and any race-detector report is a violation. Non-trivial = some query returns a non-empty proper subset; distinct = distinct input"
 
 func mixedDocset(r *Rand, kind string) eCase {
 	o := &docsetOpts{kind: kind, nFields: 1 + r.Intn(3), maxDocs: 8, valueShape: intsShape, queryShape: intsShape}
